@@ -110,6 +110,11 @@ impl Filter for BasicFilter {
 
             // get relative frequency difference
             let mut freq_diff = interval_local / interval_master;
+            if !freq_diff.is_finite() {
+                // no usable interval (e.g. two measurements with the same event
+                // time): do not derive a frequency from it
+                freq_diff = 1.0;
+            }
             if (freq_diff - 1.0).abs() > self.freq_confidence {
                 freq_diff = freq_diff.clamp(1.0 - self.freq_confidence, 1.0 + self.freq_confidence);
                 self.freq_confidence *= 2.0;
